@@ -49,6 +49,9 @@ def witnesses(func_result, ob, repo_root, tier):
 
 def replay(entry, repo_root):
     r = entry.get('replay') or {}
+    if r.get('kind') == 'loader':
+        fs = [f for f in _loader_job((r['a'], r['b'], r['opt'])) if f['class'].startswith('c10-')]
+        return fs[0]['what'] if fs else None
     if r.get('kind') == 'doc':
         fs = [f for f in _check((r['a'], r['b'], r['opt'])) if f['class'].startswith('c10-')]
         return fs[0]['what'] if fs else None
@@ -73,6 +76,55 @@ def _flags_ok(node, opt, fails, path='$'):
                           'class': 'c10-flags-not-propagated'})
     for i, c in enumerate(node.children()):
         _flags_ok(c, opt, fails, f"{path}/{i}")
+
+
+def _loader_job(job):
+    """The file loaders hand the options to every list / mapping they build, including the list of documents of a
+    multi-document YAML stream; the scripts of the loaded trees obey the restrictions."""
+    import json
+    import plistlib
+    import graphtage
+    import yaml
+    a, b, opt = job
+    fails = []
+    tf = gt.TempFiles()
+    try:
+        options = graphtage.BuildOptions(**opt)
+        variants = {
+            'json': lambda d: (json.dumps(d).encode(), '.json'),
+            'json5': lambda d: (json.dumps(d).encode(), '.json5'),
+            'yaml': lambda d: (yaml.safe_dump(d).encode(), '.yml'),
+            'yaml-stream': lambda d: (yaml.safe_dump_all(d if isinstance(d, list) and len(d) > 1 else [d, d]).encode(), '.yml'),
+            'plist': lambda d: (plistlib.dumps(d), '.plist'),
+        }
+        for name, dump in variants.items():
+            if name == 'plist' and ('None' in repr(a) or 'None' in repr(b) or not isinstance(a, (list, dict)) or not isinstance(b, (list, dict))):
+                continue
+            ft = graphtage.FILETYPES_BY_TYPENAME[name.split('-')[0]]
+            (da, sa), (db, sb) = dump(a), dump(b)
+            ta = ft.build_tree(tf.write(da, sa, binary=True), options)
+            tb = ft.build_tree(tf.write(db, sb, binary=True), options)
+            f = []
+            for t in (ta, tb):
+                for n in t.dfs():
+                    _flags_ok(n, opt, f) if not n.children() or True else None
+                    break
+            ra, rb = (ta.root, tb.root) if name == 'plist' else (ta, tb)
+            e = ra.edits(rb)
+            walk.refine(e)
+            walk.walk(e, ra, rb, opt, f)
+            for x in f:
+                x['what'] = f'trees loaded from {name} files: ' + x['what']
+            fails.extend(f)
+    except Exception as ex:
+        fails.append({'what': f"{type(ex).__name__}: {ex}", 'class': f'c10-exception:{type(ex).__name__}'})
+    finally:
+        tf.cleanup()
+    for f in fails:
+        f['what'] = f"{f['what']} [{a!r} -> {b!r}, opt={opt}]"
+        f['input'] = {'a': a, 'b': b, 'opt': opt}
+        f['replay'] = {'kind': 'loader', 'a': a, 'b': b, 'opt': opt}
+    return fails
 
 
 def _check(job):
@@ -137,11 +189,15 @@ def bounded(tier, seed, repo_root):
             for o in gt.OPTION_COMBOS:
                 jobs.append((a, b, o))
     res = pmap(_check, jobs, repo_root, job_timeout=60, on_timeout=timeout_failure('C10'))
+    ldocs = [[1, 2, 3], [0, 1, 2, 3], [[1, 2], [3]], [{"a": 1}, {"a": 1, "b": 2}, {"c": [1, 2]}], {"k": [1, 2, 3], "m": {"x": 1}},
+             {"k": [9, 1, 2, 3], "n": {"x": 2}}, [{"z": [5, 6]}, {"a": 1}, {"a": 1, "b": 2}]]
+    lj = [(a, b, o) for a in ldocs for b in ldocs if a is not b for o in gt.OPTION_COMBOS[::2]]
+    res = list(res) + list(pmap(_loader_job, lj, repo_root, job_timeout=120, on_timeout=timeout_failure('C10')))
     fails = [f for fs in res for f in fs if f['class'].startswith('c10-')]
     return [{
         'name': 'C10.option-restrictions', 'bound': f"documents <= {4 if tier == 'quick' else 5} nodes over {atoms!r}, keys a/b/c "
-        f"({'all' if exhaustive else 'seeded sample of'} {len(pairs)} pairs, options cycling) + {len(base)}^2 x 9 structured pairs",
-        'evaluations': len(jobs), 'distinct_nontrivial': len({D.key(j[0]) + D.key(j[1]) + str(sorted(j[2].items())) for j in jobs}),
+        f"({'all' if exhaustive else 'seeded sample of'} {len(pairs)} pairs, options cycling) + {len(base)}^2 x 9 structured pairs + {len(lj)} pairs loaded from json / json5 / yaml / multi-document yaml / plist files",
+        'evaluations': len(jobs) + len(lj), 'distinct_nontrivial': len({D.key(j[0]) + D.key(j[1]) + str(sorted(j[2].items())) for j in jobs}),
         'exhaustive': False,
         'rule': "pair x options -> at every nesting level: no cross-key pair under 'none'; every common key self-paired under "
                 "'auto'/'none'; lists positional + surplus tail under -l (and -ll for equal lengths); node flags equal the options",
